@@ -150,6 +150,7 @@ def _mk_classes():
                 "par": (np.int64, -1),
                 "met": (np.int64, -1),
                 "odd": (bool, False),
+                "pid": (np.int64, -1),
             }
 
         def sample(self, state, rng):
@@ -164,7 +165,7 @@ def _mk_classes():
                 new.ud = d
             stats = {
                 "x": new.x, "u0": float(u[0]) if d > 0 else np.nan, "d": d,
-                "par": self.par, "met": self.met, "odd": new.x % 2 == 1,
+                "par": self.par, "met": self.met, "odd": new.x % 2 == 1, "pid": os.getpid(),
             }
             return new, stats
 
@@ -232,7 +233,8 @@ def trace0(state):
 
 def trace1(state):
     hook(state, "t1", 0)
-    return {"na_nf": np.array([state.na, state.nf])}
+    # shifted by one so that a written row can never look like the integer fill value 0
+    return {"na_nf": np.array([state.na + 1, state.nf + 1])}
 
 
 TRACES = [trace0, trace1]
@@ -244,7 +246,12 @@ DEFAULT = {
     "hasA": True, "da": 1, "aStats": True, "db": 2, "pd": False, "e": 1, "hf": True, "hs": True,
     "nf": 2, "par0": 5, "met0": 9, "inits": [[0, 0]], "nw": 3, "nm": 2, "tw": True,
     "stager": "warm", "n_process": 1, "memmap": "mem", "init_kind": "dict", "seed": 1, "ncalls": 1,
+    "bitgen": "PCG64",
 }
+
+
+def base_rng(cfg):
+    return np.random.Generator(getattr(np.random, cfg.get("bitgen", "PCG64"))(cfg["seed"]))
 
 
 def stager_token(cfg):
@@ -368,9 +375,13 @@ def parse_model(line):
 class Ref:
     """Reference draws of each chain's stream: value -> position."""
 
-    def __init__(self, seed, n_chain, m=4000):
-        base = np.random.default_rng(seed)
-        self.seqs = [np.random.default_rng(base.bit_generator.jumped(c)).random(m) for c in range(n_chain + 2)]
+    def __init__(self, cfg, n_chain, m=4000):
+        base = base_rng(cfg)
+        if hasattr(base.bit_generator, "jumped"):
+            gens = [np.random.default_rng(base.bit_generator.jumped(c)) for c in range(n_chain + 2)]
+        else:  # spawned children of the seed sequence (the run under test spawns exactly n_chain)
+            gens = [np.random.default_rng(sq) for sq in base.bit_generator._seed_seq.spawn(n_chain)]  # noqa: SLF001
+        self.seqs = [g.random(m) for g in gens]
         self.index = [{float(v): i for i, v in enumerate(s)} for s in self.seqs]
 
     def code(self, stream, u):
@@ -397,7 +408,7 @@ def build(cfg):
     transitions["b"] = CountB(cfg["db"], cfg["pd"], cfg["par0"], cfg["met0"], cfg.get("ncalls", 1))
     ads = ([FastA()] if cfg["hf"] else []) + ([SlowA(cfg["e"])] if cfg["hs"] else [])
     adapters = {"b": ads} if (ads or uses_windowed(cfg)) else None
-    sampler = mici.samplers.MarkovChainMonteCarloMethod(np.random.default_rng(cfg["seed"]), transitions)
+    sampler = mici.samplers.MarkovChainMonteCarloMethod(base_rng(cfg), transitions)
     inits = []
     for cid, x in cfg["inits"]:
         d = {"cid": cid, "x": x, "na": 0, "nf": 0, "u0": float("nan"), "ud": 0}
@@ -433,10 +444,11 @@ def canon_arrays(cfg, ref, out, n_chain):
         cells = []
         for r in range(len(st["x"][c])):
             vals = (int(st["x"][c][r]), float(st["u0"][c][r]), int(st["d"][c][r]), int(st["par"][c][r]), int(st["met"][c][r]))
-            fills = [vals[0] == -1, vals[1] != vals[1], vals[2] == -1, vals[3] == -1, vals[4] == -1]
+            fills = [vals[0] == -1, vals[1] != vals[1], vals[2] == -1, vals[3] == -1, vals[4] == -1,
+                     int(st["pid"][c][r]) == -1]
             if all(fills) and not bool(st["odd"][c][r]):
                 cells.append(None)
-            elif fills[0] or fills[2] or fills[3] or fills[4] or (fills[1] and vals[2] != 0) or (
+            elif fills[0] or fills[2] or fills[3] or fills[4] or fills[5] or (fills[1] and vals[2] != 0) or (
                 bool(st["odd"][c][r]) != (vals[0] % 2 == 1)
             ):
                 cells.append("partial")
@@ -461,13 +473,12 @@ def canon_arrays(cfg, ref, out, n_chain):
             cells = []
             for r in range(len(v)):
                 a, f = int(v[r][0]), int(v[r][1])
-                # a written row has na >= 1 when transition a exists; without it the row (0, nf) is
-                # indistinguishable from fill when nf == 0 — resolved against trace0 of the same row
                 if a == 0 and f == 0:
-                    written = (not cfg["hasA"]) and cfg["nf"] >= 1 and arrs[-1][r] is not None
-                    cells.append([0, 0] if written else None)
+                    cells.append(None)
+                elif a == 0 or f == 0:
+                    cells.append("partial")
                 else:
-                    cells.append([a, f])
+                    cells.append([a - 1, f - 1])
             arrs.append(cells)
         res.append(arrs)
     return res
@@ -475,9 +486,12 @@ def canon_arrays(cfg, ref, out, n_chain):
 
 def real_run(cfg, intr_spec=None, delays=None, log_calls=False, timeout=120.0):
     """Run the real sampler. Returns dict(finals, arrays, lengths, files, error, fired, calls)."""
+    import logging
+
+    logging.getLogger("mici").setLevel(logging.CRITICAL + 1)  # interrupts are logged with tracebacks
     sampler, inits, adapters, _ = build(cfg)
     n_chain = len(inits)
-    ref = Ref(cfg["seed"], n_chain)
+    ref = Ref(cfg, n_chain)
     HOOK.reset()
     HOOK.spec = intr_spec
     HOOK.delays = delays
@@ -488,8 +502,10 @@ def real_run(cfg, intr_spec=None, delays=None, log_calls=False, timeout=120.0):
         "stager": make_stager(cfg),
         "n_process": cfg["n_process"],
         "trace_warm_up": cfg["tw"],
-        "display_progress": False,
+        "display_progress": bool(cfg.get("progress", False)),
     }
+    if cfg.get("progress", False):
+        kwargs["monitor_stats"] = {"b": ["x", "d"]}
     tmpdir = None
     if cfg["memmap"] == "tmp":
         kwargs["force_memmap"] = True
@@ -498,16 +514,32 @@ def real_run(cfg, intr_spec=None, delays=None, log_calls=False, timeout=120.0):
         kwargs["force_memmap"] = True
         kwargs["memmap_path"] = tmpdir.name
     res = {"error": None, "fired": False, "calls": None}
+    # observe memmap flushes (public NumPy API; sequential runs only: workers flush in their own process)
+    flushed = []
+    orig_flush = np.memmap.flush
+    if cfg["memmap"] != "mem" and cfg["n_process"] == 1:
+        def _flush(self):
+            flushed.append((Path(str(self.filename)).name if self.filename is not None else None, HOOK.fired))
+            return orig_flush(self)
+
+        np.memmap.flush = _flush
+    import contextlib
+    import io
+
     try:
-        out = with_timeout(lambda: sampler.sample_chains(cfg["nw"], cfg["nm"], inits, **kwargs), timeout)
+        with contextlib.redirect_stdout(io.StringIO()) if cfg.get("progress", False) else contextlib.nullcontext():
+            out = with_timeout(lambda: sampler.sample_chains(cfg["nw"], cfg["nm"], inits, **kwargs), timeout)
     except _Timeout:
         res["error"] = "timeout"
         out = None
     except BaseException as e:  # noqa: BLE001  (KeyboardInterrupt escaping is a finding, not a crash)
         res["error"] = f"{type(e).__name__}: {e}"
         out = None
+    finally:
+        np.memmap.flush = orig_flush
     res["fired"] = HOOK.fired
     res["calls"] = HOOK.log
+    res["flushed"] = flushed
     HOOK.reset()
     try:
         if out is not None:
@@ -516,6 +548,7 @@ def real_run(cfg, intr_spec=None, delays=None, log_calls=False, timeout=120.0):
             # the stream of final state i is chain i only if no chain is missing (sequential
             # interrupts return a prefix of the chains, so positions still agree)
             res["arrays"] = canon_arrays(cfg, ref, out, n_chain)
+            res["pids"] = [[int(v) for v in out.statistics["b"]["pid"][c]] for c in range(n_chain)]
             lens = set()
             for d in (out.traces or {}).values():
                 lens |= {len(a) for a in d}
@@ -674,7 +707,7 @@ def oracle_complete(cfg, res):
             bad.append("memmap requested but plain arrays returned")
     if "files" in res and res["files"]["bad"]:
         bad.append("npy read-back: " + "; ".join(res["files"]["bad"][:3]))
-    want_dtypes = {"x:int64", "u0:float64", "d:int64", "par:int64", "met:int64", "odd:bool"}
+    want_dtypes = {"x:int64", "u0:float64", "d:int64", "par:int64", "met:int64", "odd:bool", "pid:int64"}
     if not want_dtypes <= set(res["types"]["dtypes"]):
         bad.append(f"statistic dtypes {res['types']['dtypes']} miss declared {sorted(want_dtypes)}")
     return bad
@@ -717,7 +750,9 @@ def gen_cfg(rng, *, allow_par=True, small=False):
     cfg["memmap"] = str(rng.choice(["mem", "mem", "tmp", "dir"]))
     cfg["init_kind"] = str(rng.choice(["dict", "state"]))
     cfg["seed"] = int(rng.integers(0, 1000))
+    cfg["bitgen"] = str(rng.choice(["PCG64", "PCG64", "PCG64DXSM", "Philox", "MT19937", "SFC64"]))
     cfg["n_process"] = 1
+    cfg["progress"] = bool(rng.random() < 0.12)
     return cfg
 
 
@@ -865,8 +900,26 @@ def check_stat_table(ctx):
         ctx.count("stat_table_class_checked")
 
 
+def replay_corpus(ctx):
+    """Past failing inputs (corpus/C13/*.json) are re-executed first."""
+    import json
+
+    for f in sorted((common.VERIF / "corpus" / PROP).glob("*.json")):
+        obj = json.loads(f.read_text())
+        ctx.count("corpus_case")
+        try:
+            still = replay(ctx, obj)
+        except Exception as e:  # noqa: BLE001
+            ctx.disagreement(f"corpus case {f.name} raised {type(e).__name__}: {e}", {"corpus": f.name})
+            continue
+        if still:
+            ctx.violation(obj.get("signature", "corpus:" + f.name), f"corpus case {f.name} fails: {obj.get('comment', '')}",
+                          {k: v for k, v in obj.items() if k not in ("comment", "signature")})
+
+
 def run(ctx: common.Ctx):
     classes()
+    replay_corpus(ctx)
     rng = common.rng_for(ctx)
     ctx.rule = (
         "counting-kernel runs: random configurations over chains 1-4 x warm-up/main counts incl. 0 x trace_warm_up x "
@@ -897,9 +950,9 @@ def run(ctx: common.Ctx):
     ]
     for c in corner:
         cfgs.append({**DEFAULT, **c})
-    for _ in range(ctx.n(140, 1500)):
+    for _ in range(ctx.n(360, 10000)):
         cfgs.append(gen_cfg(rng))
-    for _ in range(ctx.n(8, 60)):
+    for _ in range(ctx.n(14, 250)):
         c = gen_cfg(rng, small=True)
         c["n_process"] = [2, 3, None, 2][int(rng.integers(4))]
         c["memmap"] = str(rng.choice(["mem", "dir"]))
@@ -920,6 +973,8 @@ def run(ctx: common.Ctx):
         ctx.count(f"stager={'default' if cfg['stager'] is None else cfg['stager'] if cfg['stager'] == 'warm' else 'windowed'}")
         ctx.count(f"adapters={'F' if cfg['hf'] else ''}{'S' if cfg['hs'] else ''}" or "adapters=")
         ctx.count(f"chains={len(cfg['inits'])}")
+        if cfg.get("progress"):
+            ctx.count("display_progress+monitor_stats")
         if any(t[0] == 0 for t in table):
             ctx.count("zero_length_stage")
         if cfg["nw"] == 0 or cfg["nm"] == 0:
@@ -945,7 +1000,7 @@ def run(ctx: common.Ctx):
         ("static", 3, 2, 1, False, 1, "state", "tmp"), ("dynamic", 2, 4, 2, True, 1, "array", "mem"),
         ("dynamic", 0, 3, 3, False, 2, "array", "mem"), ("static", 2, 3, 3, True, None, "state", "mem"),
     ]
-    for _ in range(ctx.n(6, 60)):
+    for _ in range(ctx.n(10, 80)):
         hmc.append((
             str(rng.choice(["static", "dynamic"])), int(rng.integers(0, 5)), int(rng.integers(0, 6)),
             int(rng.integers(1, 4)), bool(rng.random() < 0.5), 1, str(rng.choice(["array", "state"])),
